@@ -374,7 +374,10 @@ def ens_mc_rx(self, old_self, exc, result):
         return False
     if not relay:
         return queued and self.m_calls == 0
-    return queued and self.m_calls == 1 and self.m_type == 4 and implies(1 <= lv and lv <= 3, self.m_to == level_addr(lv + 1))
+    # levels 1..3: the next level; level 4: the (unpopulated) level 5 -- never a populated level other than
+    # the next one, or nodes of another level would receive it; level 0: the master relays to its own level
+    nxt = ite(lv == 0, 0, ite(lv == 4, 0o10000, level_addr(lv + 1)))
+    return queued and self.m_calls == 1 and self.m_type == 4 and self.m_to == nxt
 
 
 def req_ack_for_me(self):
